@@ -20,7 +20,26 @@ import sys
 
 ROOT = '/verif'
 REPO = os.environ.get('VERIF_REPO', '/repo')   # experiments may point the checks at a scratch copy of the repository
-GEN = os.path.join(ROOT, 'coq', 'gen')
+
+
+def work_root():
+    """where the Coq project and the OCaml drivers are built.  For /repo itself: /verif (coq/, ocaml/).
+    For an experiment against a modified copy (VERIF_REPO=<dir>): a private copy under /verif/build/exp_<hash>, so that
+    regenerated leaves, rebuilt proofs and drivers of an experiment never mix with the real tree's (or another experiment's)."""
+    if REPO == '/repo':
+        return ROOT
+    import hashlib
+    w = os.path.join(ROOT, 'build', 'exp_' + hashlib.sha256(os.path.abspath(REPO).encode()).hexdigest()[:10])
+    if not os.environ.get('VERIF_WORK_SYNCED') == w:
+        os.makedirs(w, exist_ok=True)
+        for d in ('coq', 'ocaml'):
+            subprocess.run(['rsync', '-a', os.path.join(ROOT, d) + '/', os.path.join(w, d) + '/'], check=True)
+        os.environ['VERIF_WORK_SYNCED'] = w          # child processes (leafgen.py) do not sync again
+    return w
+
+
+WORK = work_root()
+GEN = os.path.join(WORK, 'coq', 'gen')
 INC = os.path.join(REPO, 'include')
 
 
